@@ -100,13 +100,14 @@ Record world := mkWorld {
   tr_ev : trk ent; tr_se : trk ent; tr_er : trk (ent * ent * ertype); tr_de : trk (ent * option handle);
   (* harness-level name binding *)
   bound : list N; tokens : list (N * token);
+  spawned : list N;                                 (* ghost: system entities whose storage was ever installed *)
   (* observation *)
   log : list ev;
 }.
 #[export] Instance eta_world : Settable _ := settable! mkWorld
   <alive; comps; storage; cbs; ereactors; dtrackers; dataents; xlocals; resvals; removed; removed_seq; generation; next_ent;
    sigs; next_sig; gc_chan; comp_tbl; desp_tbl; any_tbl; res_tbl; bc_tbl; removal_checkers; despawn_chan;
-   counter; buffer; ticket_ctr; tr_ev; tr_se; tr_er; tr_de; bound; tokens; log>.
+   counter; buffer; ticket_ctr; tr_ev; tr_se; tr_er; tr_de; bound; tokens; spawned; log>.
 
 Definition FIRST_INTERNAL : N := 1000000.
 Definition PLACEHOLDER : N := 500000.
@@ -120,7 +121,7 @@ Definition init_world : world := {|
   comp_tbl := []; desp_tbl := []; any_tbl := []; res_tbl := []; bc_tbl := []; removal_checkers := []; despawn_chan := [];
   counter := 0; buffer := []; ticket_ctr := 0;
   tr_ev := empty_trk 0; tr_se := empty_trk 0; tr_er := empty_trk (0, 0, RIns UNIT_TY); tr_de := empty_trk (0, None);
-  bound := []; tokens := []; log := [] |}.
+  bound := []; tokens := []; spawned := []; log := [] |}.
 
 Definition emit (e : ev) (w : world) : world := w <| log ::= fun l => l ++ [e] |>.
 Definition is_alive (e : ent) (w : world) : bool := memN e (alive w).
